@@ -494,11 +494,16 @@ def symx_report(prop, tier, seed, index, results, feas, meta, known):
             undecided.append({"key": key, "path": pth["path"], "solvers": r["solvers"], "timeout_s": to})
     violations, known_hits, nonrepro = [], [], []
     seen_keys = {}
+    per_sc, skipped = {}, []  # replay at most 6 refuted goals per scenario once one of them has reproduced
     rdir = os.path.join(VERIF, "replays", prop)
     for name, pth, g, r in refuted:
         key = "%s::%s" % (name, g["name"])
         if key in seen_keys:
             seen_keys[key]["paths"].append(pth["path"])
+            continue
+        per_sc[name] = per_sc.get(name, 0) + 1
+        if per_sc[name] > 6 and any(e["scenario"] == name and e["reproduced"] for e in seen_keys.values()):
+            skipped.append(key)
             continue
         sc = next(s for s in index if s["name"] == name)
         engines = [e for e in ("f64", "cn") if sc["has_" + e]] or ["cn"]
@@ -541,6 +546,7 @@ def symx_report(prop, tier, seed, index, results, feas, meta, known):
         "undecided": undecided[:40],
         "undecided_count": len(undecided),
         "refuted_reproduced_known": [e["key"] for e in known_hits],
+        "refuted_not_replayed": skipped[:50],
         "solver_disagreements": disagreements,
         "solver_time_s": round(meta["solver_s"], 2),
         "emit_time_s": round(meta["emit_s"], 2),
